@@ -22,6 +22,11 @@ CLAIMED = {
         note=PROOF_NOTE + "PARTIAL: resolution-equivalence theorem pending; full_moon parser and visitor order assumed (reproduced hook by hook, divergence = table mismatch); std enters through an oracle computed by the real code.",
         technique="Lean 4 theorems over the lint given the scope tables (partial) + three-way correspondence: real ScopeManager tables / Lean ScopeVisitor model / environment-passing Lua resolver",
         design="§4 C03"),
+    "C05": dict(
+        text="Machine-checked proofs over a Lean 4 model of visit_function_call / get_argument_type / PassedArgumentType (call style, the three argument forms, the expected/max/vararg/maybe-more arithmetic, the per-argument loop, all Lua 5.1 expression forms): `.`/`:` misuse is reported exactly when the style differs (C05_style); a count problem is reported iff the argument count lies outside the documented range or the call has more arguments than parameters with a trailing call/`...` (C05_count; C05_count_exact is the property's wording outside that case, which is refuted for the unrestricted statement by `math.abs(1, f())`); every reported type problem on arguments without long-bracket literals and without arithmetic on string-typed operands is a definite mismatch against an independent static reading of the Lua manual (C05_types), constant lists are judged by content for short-quoted literals (C05_constant), and a call satisfying the definition is not reported (C05_clean). Tied to the code by running the real lint on generated single-function libraries x generated and bounded-exhaustive calls; the check reports the three places where the unchanged code leaves the property (long-bracket literals vs constant lists, open over-full calls, arithmetic on string literals).",
+        note=PROOF_NOTE + "the property as worded is false of the current code in three recorded ways, so C05_count/C05_types/C05_clean carry the hypotheses `overfullOpen = false` / `tameArgs`; each hypothesis is shown necessary by a decide-checked counterexample and by impl-vs-spec BAD verdicts in the run. String escapes are not interpreted; the static reading is metamethod-free; name lookup (C06) and scope resolution (C01/C07) are outside the model.",
+        technique="Lean 4 theorems over a model of the call check against an independently written specification (documented count range, metamethod-free static typing of argument expressions) + three-way correspondence implementation / model / specification on generated and bounded-exhaustive (definition, call) pairs",
+        design="§4 C05"),
     "C06": dict(
         text="Machine-checked proof that the model of find_global (global tree built by extract_into_tree, segment walk with explicit-before-`*`, struct switch, any short-circuit, implicit read-only prefixes) equals the documented resolution defined directly on the flat key map, for every library and every query path; that global_has_fields is `some key starts with the root`; that lookup never panics when struct references are closed; and that assignment targets are judged independently of position. Tied to the code by differential runs of find_global / global_has_fields and of the real lint on generated libraries, paths and assignments.",
         note=PROOF_NOTE + "keys are modelled as segment lists (no '.' inside a queried name); the scope-resolution gate is an input flag here (C01/C07).",
